@@ -580,3 +580,143 @@ Proof.
       pose proof (prefix_le' S_Witness wits (N.to_nat idx)). lia.
     + rewrite (witnesses_offset_at_none k Hk body pol meta ins outs wits HB Hs idx Hge). discriminate.
 Qed.
+
+(* ================================================================ storage slots and proof entries *)
+Lemma firstn_len {A} (l : list A) i : (i <= length l)%nat -> length (firstn i l) = i.
+Proof. intros H. rewrite firstn_length. lia. Qed.
+Lemma cmul_cadd a b c : b + a * c <= u64_max -> obind (cmul a c) (cadd b) = Some (b + a * c).
+Proof.
+  intros H. unfold obind, cmul, cadd, checked_mul, checked_add. change u64_max with (U64 - 1) in H.
+  assert (U64 > 0) by (vm_compute; reflexivity).
+  destruct (a * c <? U64) eqn:E1; [|apply N.ltb_ge in E1; lia].
+  destruct (b + a * c <? U64) eqn:E2; [reflexivity | apply N.ltb_ge in E2; lia].
+Qed.
+
+(* one statement for both vectors: f = StorageSlotsOffsetAt on a Create, ProofSetOffsetAt on an Upload *)
+Definition body_vector (k : kind) (f : atfn) : option (string * ty * N * string) :=
+  match k, f with
+  | KCreate, StorageSlotsOffsetAt => Some ("storage_slots", S_StorageSlot, 64, "storage_slots_offset_static")
+  | KUpload, ProofSetOffsetAt => Some ("proof_set", S_Bytes32, 32, "proof_set_offset_static")
+  | _, _ => None
+  end.
+
+Theorem body_vectors_locate k v f idx name te w st :
+  body_vector k f = Some (name, te, w, st) ->
+  typed (kind_ty k) v = true -> lenN (enc (kind_ty k) v) <= u64_max ->
+  match tx_offset_at (tx0 k v) f idx with
+  | Some o => exists i s bs, idx = N.of_nat i /\ at_sel k f i = Some s /\
+                             locate_in (kind_ty k) v s = Some (o, bs) /\ slice (enc (kind_ty k) v) o (lenN bs) = bs
+  | None => forall i s, idx = N.of_nat i -> at_sel k f i = Some s -> locate_in (kind_ty k) v s = None
+  end.
+Proof.
+  intros Hbv Hv Hs.
+  assert (Hk : k <> KMint) by (destruct k; try discriminate Hbv; discriminate).
+  destruct (typed_chargeable k v Hk Hv) as (body & pol & ins & outs & wits & meta & -> & Hb & Hp & Hi & Hou & Hw).
+  pose proof (enc_len k Hk body pol meta ins outs wits) as EL.
+  destruct k; try discriminate Hbv; destruct f; try discriminate Hbv; injection Hbv as <- <- <- <-; cbn [body_ty] in *.
+  - (* Create: storage slots *)
+    pose proof (static_len S_Create _ 88 Hv eq_refl) as HS.
+    pose proof (typed_shaped _ _ Hb) as Hsh. shape Hsh.
+    match type of Hb with
+    | typed S_CreateBody (VS [?a; ?b; VL ?l]) = true =>
+        change ((1 <? U64) && (typed (TUInt 2) a && (typed S_Salt b && (forallb (typed S_StorageSlot) l && true))) = true) in Hb;
+        rename l into slots; rename a into va; rename b into vb
+    end.
+    rewrite !andb_true_iff in Hb. destruct Hb as (_ & _ & _ & Hsl & _).
+    change (tx_offset_at (tx0 KCreate (cval (VS [va; vb; VL slots]) pol ins outs wits meta)) StorageSlotsOffsetAt idx)
+      with (if idx <? lenN slots then obind (cmul idx 64) (cadd 88) else None).
+    assert (Hsp : forall i, locate_in S_Create (cval (VS [va; vb; VL slots]) pol ins outs wits meta)
+                              (SField "body" (SField "storage_slots" (SElem i (SHere PFull)))) =
+                  match nth_error slots i with
+                  | Some x => Some (88 + lenN (enc_all S_StorageSlot (firstn i slots)), enc S_StorageSlot x)
+                  | None => None
+                  end).
+    { intros i.
+      change (locate_in S_Create (cval (VS [va; vb; VL slots]) pol ins outs wits meta) (SField "body" (SField "storage_slots" (SElem i (SHere PFull)))))
+        with (locate (TVec S_StorageSlot) (VL slots) (SElem i (SHere PFull)) (0 + 0 + 8 + 8 + lenN (enc_static S_Salt vb))
+                (lenN (enc_static S_Create (cval (VS [va; vb; VL slots]) pol ins outs wits meta)) + 0 + 0)).
+      rewrite locate_elem, HS, !N.add_0_r. reflexivity. }
+    assert (Hdyn : lenN (enc_all S_StorageSlot slots) = 64 * lenN slots) by (apply (enc_all_fixed S_StorageSlot 64 slots slot_len Hsl)).
+    change (enc_dynamic S_CreateBody (VS [va; vb; VL slots])) with ([] ++ [] ++ enc_all S_StorageSlot slots ++ []) in EL.
+    rewrite !lenN_app, !lenN_nil, Hdyn in EL. change (kind_ty KCreate) with S_Create in *. rewrite HS in EL.
+    destruct (idx <? lenN slots) eqn:E.
+    + apply N.ltb_lt in E.
+      assert (Hlt : (N.to_nat idx < length slots)%nat) by (unfold lenN in E; lia).
+      destruct (nth_error slots (N.to_nat idx)) as [x|] eqn:Hx; [|apply nth_error_None in Hx; lia].
+      rewrite cmul_cadd by lia.
+      pose proof (Hsp (N.to_nat idx)) as L. rewrite Hx in L.
+      assert (Hpre : lenN (enc_all S_StorageSlot (firstn (N.to_nat idx) slots)) = idx * 64).
+      { rewrite (enc_all_fixed S_StorageSlot 64 _ slot_len (forallb_firstn _ _ _ Hsl)). unfold lenN. rewrite firstn_len by lia. lia. }
+      rewrite Hpre in L.
+      exists (N.to_nat idx), (SField "body" (SField "storage_slots" (SElem (N.to_nat idx) (SHere PFull)))), (enc S_StorageSlot x).
+      repeat split; [symmetry; apply Nnat.N2Nat.id | exact L | apply (locate_sound _ _ _ _ _ L)].
+    + apply N.ltb_ge in E. intros i s -> Es. injection Es as <-. rewrite Hsp.
+      assert (Hn : nth_error slots i = None) by (apply nth_error_None; unfold lenN in E; lia). rewrite Hn. reflexivity.
+  - (* Upload: proof set *)
+    pose proof (static_len S_Upload _ 104 Hv eq_refl) as HS.
+    pose proof (typed_shaped _ _ Hb) as Hsh. shape Hsh.
+    match type of Hb with
+    | typed S_UploadBody (VS [?a; ?b; ?c; ?d; VL ?l]) = true =>
+        change ((4 <? U64) && (typed S_Bytes32 a && (typed (TUInt 2) b && (typed (TUInt 2) c && (typed (TUInt 2) d &&
+                (forallb (typed S_Bytes32) l && true))))) = true) in Hb;
+        rename l into proofs; rename a into va; rename b into vb; rename c into vc; rename d into vd
+    end.
+    rewrite !andb_true_iff in Hb. destruct Hb as (_ & Hva & _ & _ & _ & Hpr & _).
+    change (tx_offset_at (tx0 KUpload (cval (VS [va; vb; vc; vd; VL proofs]) pol ins outs wits meta)) ProofSetOffsetAt idx)
+      with (if idx <? lenN proofs then obind (cmul idx 32) (cadd 104) else None).
+    assert (Hsp : forall i, locate_in S_Upload (cval (VS [va; vb; vc; vd; VL proofs]) pol ins outs wits meta)
+                              (SField "body" (SField "proof_set" (SElem i (SHere PFull)))) =
+                  match nth_error proofs i with
+                  | Some x => Some (104 + lenN (enc_all S_Bytes32 (firstn i proofs)), enc S_Bytes32 x)
+                  | None => None
+                  end).
+    { intros i.
+      change (locate_in S_Upload (cval (VS [va; vb; vc; vd; VL proofs]) pol ins outs wits meta) (SField "body" (SField "proof_set" (SElem i (SHere PFull)))))
+        with (locate (TVec S_Bytes32) (VL proofs) (SElem i (SHere PFull))
+                (0 + 0 + 8 + lenN (enc_static S_Bytes32 va) + lenN (enc_static (TUInt 2) vb) + lenN (enc_static (TUInt 2) vc) + lenN (enc_static (TUInt 2) vd))
+                (lenN (enc_static S_Upload (cval (VS [va; vb; vc; vd; VL proofs]) pol ins outs wits meta)) + 0 + 0 + 0 + 0 + 0)).
+      rewrite locate_elem, HS, !N.add_0_r. reflexivity. }
+    assert (Hdyn : lenN (enc_all S_Bytes32 proofs) = 32 * lenN proofs) by (apply (enc_all_fixed S_Bytes32 32 proofs bytes32_len Hpr)).
+    change (enc_dynamic S_UploadBody (VS [va; vb; vc; vd; VL proofs])) with ([] ++ [] ++ [] ++ [] ++ enc_all S_Bytes32 proofs ++ []) in EL.
+    rewrite !lenN_app, !lenN_nil, Hdyn in EL. change (kind_ty KUpload) with S_Upload in *. rewrite HS in EL.
+    destruct (idx <? lenN proofs) eqn:E.
+    + apply N.ltb_lt in E.
+      assert (Hlt : (N.to_nat idx < length proofs)%nat) by (unfold lenN in E; lia).
+      destruct (nth_error proofs (N.to_nat idx)) as [x|] eqn:Hx; [|apply nth_error_None in Hx; lia].
+      rewrite cmul_cadd by lia.
+      pose proof (Hsp (N.to_nat idx)) as L. rewrite Hx in L.
+      assert (Hpre : lenN (enc_all S_Bytes32 (firstn (N.to_nat idx) proofs)) = idx * 32).
+      { rewrite (enc_all_fixed S_Bytes32 32 _ bytes32_len (forallb_firstn _ _ _ Hpr)). unfold lenN. rewrite firstn_len by lia. lia. }
+      rewrite Hpre in L.
+      exists (N.to_nat idx), (SField "body" (SField "proof_set" (SElem (N.to_nat idx) (SHere PFull)))), (enc S_Bytes32 x).
+      repeat split; [symmetry; apply Nnat.N2Nat.id | exact L | apply (locate_sound _ _ _ _ _ L)].
+    + apply N.ltb_ge in E. intros i s -> Es. injection Es as <-. rewrite Hsp.
+      assert (Hn : nth_error proofs i = None) by (apply nth_error_None; unfold lenN in E; lia). rewrite Hn. reflexivity.
+Qed.
+
+(* the starts of the two vectors (storage_slots_offset_static, proof_set_offset) *)
+Theorem body_vector_starts_locate k v f s o :
+  (k = KCreate /\ f = StorageSlotsOffsetStatic \/ k = KUpload /\ f = ProofSetOffset) ->
+  typed (kind_ty k) v = true -> tx_sel k f = Some s -> tx_offset (tx0 k v) f = Some o ->
+  exists bs, locate_in (kind_ty k) v s = Some (o, bs) /\ slice (enc (kind_ty k) v) o (lenN bs) = bs.
+Proof.
+  intros Hkf Hv Hsel Ho.
+  assert (Hk : k <> KMint) by (destruct Hkf as [[-> _] | [-> _]]; discriminate).
+  destruct (typed_chargeable k v Hk Hv) as (body & pol & ins & outs & wits & meta & -> & Hb & _).
+  assert (R : forall bs, locate_in (kind_ty k) (cval body pol ins outs wits meta) s = Some (o, bs) ->
+              exists bs, locate_in (kind_ty k) (cval body pol ins outs wits meta) s = Some (o, bs) /\
+                         slice (enc (kind_ty k) (cval body pol ins outs wits meta)) o (lenN bs) = bs)
+    by (intros bs L; exists bs; split; [exact L | apply (locate_sound _ _ _ _ _ L)]).
+  destruct Hkf as [[-> ->] | [-> ->]]; cbn [body_ty] in Hb; injection Hsel as <-; injection Ho as <-;
+    pose proof (typed_shaped _ _ Hb) as Hsh; shape Hsh; eapply R.
+  - pose proof (static_len S_Create _ 88 Hv eq_refl) as HS.
+    match goal with |- locate_in _ (cval (VS [?a; ?b; VL ?l]) _ _ _ _ _) _ = _ =>
+      change (locate_in (kind_ty KCreate) (cval (VS [a; b; VL l]) pol ins outs wits meta) (body_fld "storage_slots" PDynamic))
+        with (Some (lenN (enc_static S_Create (cval (VS [a; b; VL l]) pol ins outs wits meta)) + 0 + 0, enc_dynamic (TVec S_StorageSlot) (VL l)));
+      rewrite HS end. reflexivity.
+  - pose proof (static_len S_Upload _ 104 Hv eq_refl) as HS.
+    match goal with |- locate_in _ (cval (VS [?a; ?b; ?c; ?d; VL ?l]) _ _ _ _ _) _ = _ =>
+      change (locate_in (kind_ty KUpload) (cval (VS [a; b; c; d; VL l]) pol ins outs wits meta) (body_fld "proof_set" PDynamic))
+        with (Some (lenN (enc_static S_Upload (cval (VS [a; b; c; d; VL l]) pol ins outs wits meta)) + 0 + 0 + 0 + 0 + 0, enc_dynamic (TVec S_Bytes32) (VL l)));
+      rewrite HS end. reflexivity.
+Qed.
